@@ -35,6 +35,7 @@ pub fn profile_general() -> Profile {
         max_depth: 2,
         hostile_names: false,
         generic_recv: false,
+        skip_newtype_foreign: false,
         flatten_weight: 2,
     }
 }
@@ -324,6 +325,7 @@ pub fn profile_suggest() -> Profile {
         max_depth: 3,
         hostile_names: false,
         generic_recv: false,
+        skip_newtype_foreign: false,
         flatten_weight: 6,
     }
 }
@@ -356,6 +358,7 @@ pub fn profile_element() -> Profile {
         max_depth: 1,
         hostile_names: false,
         generic_recv: false,
+        skip_newtype_foreign: false,
         flatten_weight: 2,
     }
 }
@@ -375,6 +378,7 @@ pub fn profile_enum() -> Profile {
         max_depth: 1,
         hostile_names: false,
         generic_recv: false,
+        skip_newtype_foreign: false,
         flatten_weight: 2,
     }
 }
@@ -394,6 +398,7 @@ pub fn profile_magic() -> Profile {
         max_depth: 1,
         hostile_names: false,
         generic_recv: false,
+        skip_newtype_foreign: false,
         flatten_weight: 2,
     }
 }
@@ -413,6 +418,7 @@ pub fn profile_compile_hostile() -> Profile {
         max_depth: 2,
         hostile_names: true,
         generic_recv: true,
+        skip_newtype_foreign: true,
         flatten_weight: 2,
     }
 }
@@ -447,6 +453,11 @@ fn run_c20(args: &Args) -> i32 {
             out.split_whitespace().take(7).collect::<Vec<_>>().join("_")
         };
         let src = id.map(|i| recv_source(&built.recvs, i)).unwrap_or_default();
+        // (the one declaration of known finding K2 is told apart from every other unsatisfied bound)
+        let key = match id.map(|i| &built.recvs[i]) {
+            Some(r) if r.inner_skip && r.inner_foreign && e.code == "E0277" => format!("{key}:skip-on-the-field-of-a-newtype-over-a-type-without-FromMeta"),
+            _ => key,
+        };
         c.violation(
             format!("C20:compile-error:{}:{}", e.code, key),
             format!("receiver {:?} does not compile in a darling-only crate: [{}] {}", id.map(|i| built.recvs[i].name()), e.code, e.message),
